@@ -23,8 +23,9 @@ PROPERTY = "C43"
 TECHNIQUE = ("explicit-state model checking (per-cycle BFS to closure) of the TSEmitter / TSBurstDetector netlists against a "
              "reference ordered-set encoder / parser written from the USB 3.2 ordered-set tables")
 
-MAXSTART = 3     # cycles from the request to the first word
-MAXLAT = 3       # cycles from the last word of the Nth set to the report
+MAXSTART = 5     # cycles after the request cycle by which the first word must be driven (it may also be driven in the request cycle)
+MAXDONE = 2      # cycles after the transfer of a burst's last word within which `done` must be seen (normally the same cycle)
+MAXLAT = 5       # cycles from the last word of the Nth set to the report
 
 KINDS = {   # kind -> (name of the repository constant, first_word_ctrl, include_config)
     "TS1": ("TS1_SET_DATA", 0b1111, False), "TS2": ("TS2_SET_DATA", 0b1111, True),
@@ -72,22 +73,64 @@ class EmitterSpec(Spec):
 
     def assumptions(self):
         return ["the request_* configuration inputs are held constant from the request until the burst is done",
-                f"a requested burst must drive its first word within {MAXSTART} cycles; no bubble is allowed inside a burst",
+                f"a requested burst must drive its first word in the request cycle or within {MAXSTART} cycles after it; no bubble is allowed inside "
+                f"a burst; `done` comes with the transfer of the burst's last word or at most {MAXDONE} cycles later, never otherwise",
                 "a `start` seen while a burst is running may or may not queue one more burst; `start` in the cycle a burst ends may or "
                 "may not start the next burst (both conventions admitted)"]
 
-    # env = (config bits, candidates); candidate = ("I", just_ended) | ("S", waited) | ("B", pos, queued)
+    # env = (config bits, candidates); candidate = (state, owe): state = ("I", just_ended) | ("S", waited) | ("B", pos, queued);
+    # owe = 0, or k > 0: the last word of a burst was transferred k cycles ago and `done` has not been seen yet
     def env0(self):
-        return (0, frozenset([("I", 0)]))
+        return (0, frozenset([(("I", 0), 0)]))
 
     def actions(self, env):
         cfgs = [env[0]]
-        if self.has_cfg and all(c[0] == "I" for c in env[1]): cfgs = range(8)
+        if self.has_cfg and all(c[0][0] == "I" and not c[1] for c in env[1]): cfgs = range(8)
         return [(s, r, c) for s in (0, 1) for r in (0, 1) for c in cfgs]
 
     def expected_word(self, pos, cfgbits):
         config = (cfgbits & 1) | ((cfgbits >> 1 & 1) << 2) | ((cfgbits >> 2 & 1) << 3)     # hot reset bit0, loopback bit2, no scrambling bit3
         return ref.ts_words(self.kind, config)[pos % self.L]
+
+    def advance(self, c, o, start, ready, cfgbits, why):
+        """successors of reference state c under this cycle's observation: list of (state, burst_ends_now)"""
+        if c[0] == "I":
+            if not o.valid:
+                return [((("S", 1) if start else ("I", 0)), False)]
+            if not start:
+                why.append(("emitter:burst-too-long" if c[1] else "emitter:word-without-request", dict(data=hex(o.data), ctrl=o.ctrl)))
+                return []
+            c = ("B", 0, 0)                 # first word already in the request cycle
+        if c[0] == "S":
+            if not o.valid:
+                if c[1] + 1 > MAXSTART:
+                    why.append(("emitter:burst-not-started", dict(waited=c[1] + 1)))
+                    return []
+                return [(("S", c[1] + 1), False)]
+            c = ("B", 0, 0)
+        _, pos, queued = c
+        if not o.valid:
+            rule = "emitter:burst-too-short" if pos % self.L == 0 else "emitter:bubble-in-burst"
+            why.append((rule, dict(word_index=pos, sets_sent=pos // self.L, sets_expected=self.N)))
+            return []
+        exp = self.expected_word(pos, cfgbits)
+        if (o.data, o.ctrl) != exp:
+            rule = "emitter:wrong-config-bits" if (self.has_cfg and pos % self.L == 1 and o.ctrl == exp[1] and (o.data ^ exp[0]) & ~0xFF00 == 0) else "emitter:wrong-word"
+            why.append((rule, dict(word_index=pos, got=[hex(o.data), o.ctrl], expected=[hex(exp[0]), exp[1]], request_bits=cfgbits)))
+            return []
+        is_last = pos == self.total - 1
+        if not ready:
+            self.cover["stalled"] += 1
+            return [(("B", pos, queued | start), False)]
+        if not is_last:
+            if (pos + 1) % self.L == 0: self.cover["set_complete"] += 1
+            return [(("B", pos + 1, queued | start), False)]
+        self.cover["burst_complete"] += 1
+        out = [(("I", 1), True)]
+        if start or queued:
+            out.append((("S", 0), True))
+            self.cover["start_at_end_or_queued"] += 1
+        return out
 
     def apply(self, cur, env, a):
         start, ready, cfgbits = a
@@ -95,57 +138,31 @@ class EmitterSpec(Spec):
         if self.has_cfg: kw.update(hot_reset=cfgbits & 1, loopback=cfgbits >> 1 & 1, no_scrambling=cfgbits >> 2 & 1)
         o = cur.step(**kw)
         nxt, why = set(), []
-        for cand in env[1]:
-            c = cand
-            if c[0] == "I":
-                if not o.valid:
-                    if o.done: why.append(("emitter:done-mismatch", dict(state="idle", done=1))); continue
-                    nxt.add(("S", 1) if start else ("I", 0))
-                    continue
-                if not start:
-                    why.append(("emitter:burst-too-long" if c[1] else "emitter:word-without-request", dict(data=hex(o.data), ctrl=o.ctrl)))
-                    continue
-                c = ("B", 0, 0)                 # combinational start admitted
-            if c[0] == "S":
-                if not o.valid:
-                    if o.done: why.append(("emitter:done-mismatch", dict(state="starting", done=1))); continue
-                    if c[1] + 1 > MAXSTART: why.append(("emitter:burst-not-started", dict(waited=c[1] + 1)))
-                    else: nxt.add(("S", c[1] + 1))
-                    continue
-                c = ("B", 0, 0)
-            _, pos, queued = c
-            if not o.valid:
-                rule = "emitter:burst-too-short" if pos % self.L == 0 else "emitter:bubble-in-burst"
-                why.append((rule, dict(word_index=pos, sets_sent=pos // self.L, sets_expected=self.N)))
-                continue
-            exp = self.expected_word(pos, cfgbits)
-            if (o.data, o.ctrl) != exp:
-                rule = "emitter:wrong-config-bits" if (self.has_cfg and pos % self.L == 1 and o.ctrl == exp[1] and (o.data ^ exp[0]) & ~0xFF00 == 0) else "emitter:wrong-word"
-                why.append((rule, dict(word_index=pos, got=[hex(o.data), o.ctrl], expected=[hex(exp[0]), exp[1]], request_bits=cfgbits)))
-                continue
-            is_last = pos == self.total - 1
-            if o.done != (1 if (ready and is_last) else 0):
-                why.append(("emitter:done-mismatch", dict(word_index=pos, ready=ready, done=o.done, last_word=is_last)))
-                continue
-            if not ready:
-                nxt.add(("B", pos, queued | start))
-                self.cover["stalled"] += 1
-            elif not is_last:
-                nxt.add(("B", pos + 1, queued | start))
-                if (pos + 1) % self.L == 0: self.cover["set_complete"] += 1
-            else:
-                self.cover["burst_complete"] += 1
-                nxt.add(("I", 1))
-                if start or queued:
-                    nxt.add(("S", 0))
-                    self.cover["start_at_end_or_queued"] += 1
+        for c, owe in env[1]:
+            for c2, ends in self.advance(c, o, start, ready, cfgbits, why):
+                # `done` belongs to the transfer of the last word of a burst: in that cycle or at most MAXDONE cycles later
+                if o.done:
+                    if not (ends or owe):
+                        why.append(("emitter:done-mismatch", dict(done=1, state=list(c), burst_ends_now=ends)))
+                        continue
+                    owe2 = 0
+                elif ends:
+                    owe2 = 1
+                elif owe:
+                    if owe + 1 > MAXDONE + 1:
+                        why.append(("emitter:done-missing", dict(waited=owe)))
+                        continue
+                    owe2 = owe + 1
+                else:
+                    owe2 = 0
+                nxt.add((c2, owe2))
         if not nxt:
             prio = ["emitter:wrong-word", "emitter:wrong-config-bits", "emitter:burst-too-short", "emitter:burst-too-long", "emitter:bubble-in-burst",
-                    "emitter:done-mismatch", "emitter:burst-not-started", "emitter:word-without-request"]
+                    "emitter:done-mismatch", "emitter:done-missing", "emitter:burst-not-started", "emitter:word-without-request"]
             why.sort(key=lambda w: prio.index(w[0]))
             raise Violation(why[0][0], dict(why[0][1], candidates=sorted(env[1]), inputs=dict(start=start, ready=ready)))
         self.outcomes.add((o.valid, o.data, o.ctrl, o.done))
-        if cfgbits and any(c[0] == "B" and c[1] % self.L == 2 for c in nxt): self.cover["config_sent"] += 1
+        if cfgbits and any(c[0] == "B" and c[1] % self.L == 2 for c, _ in nxt): self.cover["config_sent"] += 1
         return (cfgbits, frozenset(nxt))
 
     def goals(self):
@@ -285,7 +302,9 @@ class DetectorSpec(Spec):
             (age, pc, pd), pending = pending[0], pending[1:]
             if self.has_cfg:
                 got = o.hot_reset | (o.loopback << 2) | (o.no_scrambling << 3)
-                if got not in {c & 0x0D for c in pc}:
+                # a late report may already show the configuration of a set that follows the burst
+                later = set(cfgs) | ({cur_cfg} if k >= 2 else set())
+                if got not in {c & 0x0D for c in set(pc) | later}:
                     raise Violation("detector:wrong-config-flags", dict(flags=dict(hot_reset=o.hot_reset, loopback=o.loopback, no_scrambling=o.no_scrambling),
                                                                         config_symbols_of_burst=sorted(pc)))
                 if got: self.cover["config_flags_reported"] += 1
